@@ -150,6 +150,17 @@ class RelabelInterp(ResultInterp):
                 return res if isinstance(op, ast.In) else not res
             return Unknown("membership")
         sym = {ast.Eq: "==", ast.NotEq: "!=", ast.Lt: "<", ast.LtE: "<=", ast.Gt: ">", ast.GtE: ">="}.get(type(op))
+        if isinstance(op, (ast.Eq, ast.NotEq)) and isinstance(l, (list, tuple)) and isinstance(r, (list, tuple)) and type(l) is type(r) and l and all(self.lv(x) is not None for x in list(l) + list(r)):
+            # sequences of labels are equal iff they have the same length and agree position by position
+            # (each position is a fact about the labels, recorded on the path like any other comparison)
+            if len(l) != len(r):
+                return isinstance(op, ast.NotEq)
+            same = True
+            for a_, b_ in zip(l, r):
+                if not self.truth(self.compare(ast.Eq(), a_, b_, node), node):
+                    same = False
+                    break
+            return same if isinstance(op, ast.Eq) else not same
         if isinstance(l, VoxelArr) and self.lv(r) is not None and sym:
             t = self._cmp(sym, l.value, self.lv(r).poly, node)
             return VMask(l, t if isinstance(t, bool) else None, None if isinstance(t, bool) else t)
